@@ -22,7 +22,7 @@ def env_impl():
 
 
 # ---------------------------------------------------------------- implementation side
-def _run_worker(prop, lines, tmo):
+def _run_worker(prop, lines, tmo, outer=None):
     """run one worker over `lines`; returns list of observation texts (handles crashes)"""
     out = []
     pos = 0
@@ -31,7 +31,7 @@ def _run_worker(prop, lines, tmo):
         try:
             p = subprocess.run([PY, "-m", "harness.worker", prop, str(tmo)], input="\n".join(lines[pos:]) + "\n",
                                capture_output=True, text=True, env=env_impl(), cwd=ROOT,
-                               timeout=min(max(120, 2 * tmo * (len(lines) - pos) // 4 + 60), 900))
+                               timeout=outer or min(max(120, 2 * tmo * (len(lines) - pos) // 4 + 60), 900))
         except subprocess.TimeoutExpired as e:      # a case that cannot be interrupted (e.g. inside numpy)
             timed_out = True
             class _P: pass
@@ -60,6 +60,16 @@ def run_impl(prop, cases, tmo=20):
     for i, r in enumerate(res):
         for j, t in enumerate(r):
             outs[i + j * k] = t
+    # a case that ran out of time is run again, on its own and with ten times the limit, before its "Timeout" is believed: the
+    # limit is wall-clock time, and on a loaded machine (many checks at once) a slow case is not a hanging one.  At most 8 are
+    # retried (a change that makes everything hang must not make the check itself run for hours); they are retried two at a time
+    late = [i for i, t in enumerate(outs) if t == '"Timeout"'][:8]
+    if late:
+        big = min(10 * tmo, 300)
+        with ThreadPoolExecutor(2) as ex:
+            again = list(ex.map(lambda i: _run_worker(prop, [lines[i]], big, outer=big + 60), late))
+        for i, r in zip(late, again):
+            if r: outs[i] = r[0]
     return [sx.loads(t) for t in outs]
 
 
@@ -83,6 +93,16 @@ def run_model(requests):
     for i, r in enumerate(res):
         for j, t in enumerate(r):
             outs[i + j * k] = t
+    # a case that ran out of time is run again, on its own and with ten times the limit, before its "Timeout" is believed: the
+    # limit is wall-clock time, and on a loaded machine (many checks at once) a slow case is not a hanging one.  At most 8 are
+    # retried (a change that makes everything hang must not make the check itself run for hours); they are retried two at a time
+    late = [i for i, t in enumerate(outs) if t == '"Timeout"'][:8]
+    if late:
+        big = min(10 * tmo, 300)
+        with ThreadPoolExecutor(2) as ex:
+            again = list(ex.map(lambda i: _run_worker(prop, [lines[i]], big, outer=big + 60), late))
+        for i, r in zip(late, again):
+            if r: outs[i] = r[0]
     return [sx.loads(t) for t in outs]
 
 
